@@ -20,6 +20,8 @@ type c03path struct {
 	Deliveries      int      `json:"deliveries"`
 	Events          []string `json:"events"`
 	FirstWriteFails bool     `json:"first_transmission_write_fails"`
+	// SwappedArming: both deliveries fall into one second and the second one's registration reaches the queue first
+	SwappedArming bool `json:"registrations_reach_the_queue_in_reverse_order,omitempty"`
 }
 
 // static automaton used to enumerate only meaningful scripts
@@ -42,9 +44,12 @@ func c03paths() []c03path {
 		var rec func(ev []string, s st)
 		rec = func(ev []string, s st) {
 			if len(ev) > 0 && (!faults || s.collide+s.wfail > 0) {
-				out = append(out, c03path{small, nd, append([]string{}, ev...), false})
+				out = append(out, c03path{small, nd, append([]string{}, ev...), false, false})
+				if nd == 2 && len(ev) <= 3 && !faults && !small {
+					out = append(out, c03path{small, nd, append([]string{}, ev...), false, true})
+				}
 				if nd == 2 && len(ev) <= vk.Pick(3, 4) && !faults {
-					out = append(out, c03path{small, nd, append([]string{}, ev...), true})
+					out = append(out, c03path{small, nd, append([]string{}, ev...), true, false})
 				}
 			}
 			if len(ev) >= maxLen {
@@ -155,7 +160,7 @@ func TestC03Retransmission(t *testing.T) {
 				w := NewWorld(t, 1, o)
 				defer w.Close()
 				viol := func(sig, format string, a ...any) {
-					rep.Violate(vk.Violation{Sig: sig, Msg: fmt.Sprintf("script %v (small pool %v, first write fails %v): ", p.Events, p.SmallPool, p.FirstWriteFails) + fmt.Sprintf(format, a...), Replay: p})
+					rep.Violate(vk.Violation{Sig: sig, Msg: fmt.Sprintf("script %v (small pool %v, first write fails %v, swapped arming %v): ", p.Events, p.SmallPool, p.FirstWriteFails, p.SwappedArming) + fmt.Sprintf(format, a...), Replay: p})
 				}
 				nSess := 1
 				if p.Deliveries == 3 {
@@ -183,6 +188,13 @@ func TestC03Retransmission(t *testing.T) {
 				w.Step()
 				mix.Subscribe(1, 0, "q1/#")
 				mix.Subscribe(2, 1, "q2/#")
+				// and one whose SUBSCRIBE asks for the reserved QoS 3 on the same filters (the broker does not refuse it): whatever
+				// the broker does for such a recipient must not cost anybody an identifier
+				q3 := w.NewClient("q3", 1, AckAll)
+				q3.Connect(ConnectOpts{ClientID: "q3", KeepAlive: 600})
+				w.Step()
+				q3.Subscribe(1, 3, "q1/#")
+				q3.Subscribe(2, 3, "q2/#")
 				pub := w.NewClient("pub", 1, AckAll)
 				pub.Connect(ConnectOpts{ClientID: "pub", KeepAlive: 600})
 				w.Step()
@@ -193,6 +205,12 @@ func TestC03Retransmission(t *testing.T) {
 				}
 				if p.FirstWriteFails {
 					subs[0].FailBrokerWrites(true) // the first transmission of both deliveries errors at the socket
+				}
+				if p.SwappedArming {
+					// both registrations in one one-second bucket
+					frac := time.Duration(time.Now().Nanosecond())
+					w.Idle((time.Second + 550*time.Millisecond - frac) % time.Second) // deadlines are bucketed by rounding: [s-0.5, s+0.5)
+					w.Node(1).SwapNextArming()
 				}
 				pub.Publish("q1/a", "pa", 1, false, 1)
 				w.Step()
@@ -490,6 +508,26 @@ func TestC03Retransmission(t *testing.T) {
 						inFlight++
 					}
 				}
+				// every identifier is either free or belongs to a delivery that is legitimately still in flight
+				{
+					total, freeIDs := int32(65535), int32(0)
+					if p.SmallPool {
+						total = 3
+					}
+					for _, iv := range wasp.VerifWriterPool(w.Node(1).Writer).Intervals() {
+						lo := iv[0]
+						if lo < 0 {
+							lo = 0
+						}
+						if iv[1] > lo {
+							freeIDs += iv[1] - lo
+						}
+					}
+					if out := int(total - freeIDs); out != inFlight {
+						viol("c03-identifiers-unaccounted", "%d identifier(s) are taken after the 60 s horizon but only %d deliver(ies) are still legitimately in flight (free list %v)", out, inFlight, wasp.VerifWriterPool(w.Node(1).Writer).Intervals())
+						return
+					}
+				}
 				reuse := false
 				target, probeTopic := -1, ""
 				if !dropped[0] {
@@ -631,6 +669,23 @@ func TestC03TimerPhase(t *testing.T) {
 					rep.Violate(vk.Violation{Sig: "c03-not-retransmitted:timer-phase", Msg: fmt.Sprintf("%+v: the unacknowledged delivery was sent %d time(s) in 8 s of silence (deadline 3 s, sweep every second)", p, n), Replay: p})
 					return
 				}
+				// the session goes away with the delivery still unacknowledged: its identifier comes back
+				sub.Drop()
+				w.Idle(8 * time.Second)
+				free := int32(0)
+				for _, iv := range wasp.VerifWriterPool(w.Node(1).Writer).Intervals() {
+					lo := iv[0]
+					if lo < 0 {
+						lo = 0
+					}
+					if iv[1] > lo {
+						free += iv[1] - lo
+					}
+				}
+				if free != 65535 {
+					rep.Violate(vk.Violation{Sig: "c03-identifier-leaked:timer-phase", Msg: fmt.Sprintf("%+v: 8 s after the silent subscriber's connection was lost %d identifier(s) are still taken (free list %v)", p, 65535-free, wasp.VerifWriterPool(w.Node(1).Writer).Intervals()), Replay: p})
+					return
+				}
 				MarkNontrivial(fmt.Sprintf("%+v", p))
 				rep.Nontrivial++
 				if i%17 == 0 {
@@ -642,5 +697,110 @@ func TestC03TimerPhase(t *testing.T) {
 		func(rep *vk.Report) {
 			rep.Rule = "paths = sweep-ticker phase x registration time within a second, in tenths (thorough: twentieths), QoS 1 and 2: one unacknowledged delivery must be retransmitted within 8 s whatever the alignment of its deadline with the per-second buckets and the ticker"
 			rep.Floor("paths", 50, rep.Nontrivial)
+		})
+}
+
+// TestC03SessionDigits: session identifiers come from the authentication back end and may end in digits, so the text of
+// one session identifier followed by a packet identifier can read the same as another session's (s + 12 = s1 + 2). Two
+// such sessions with deliveries 12 and 2 in flight: each must get all of its messages, an acknowledgement completes only
+// the acknowledging session's delivery, and the other one's goes on being retransmitted.
+func TestC03SessionDigits(t *testing.T) {
+	type dp struct {
+		SessionA string `json:"session_a"`
+		SessionB string `json:"session_b"`
+		BFirst   bool   `json:"b_connects_first"`
+	}
+	var paths []dp
+	for _, a := range []string{"s", "gw-1", "7"} {
+		paths = append(paths, dp{a, a + "1", false}, dp{a, a + "1", true})
+	}
+	RunPaths(t, "C03", "C03/session-id-digits", "TestC03SessionDigits", len(paths), vk.Pick(4*time.Minute, 10*time.Minute),
+		func(t *testing.T, i int, rep *vk.Report) {
+			p := paths[i]
+			RunBubble(t, fmt.Sprintf("p%d", i), func(t *testing.T) {
+				w := NewWorld(t, 1)
+				defer w.Close()
+				viol := func(sig, format string, a ...any) {
+					rep.Violate(vk.Violation{Sig: sig, Msg: fmt.Sprintf("%+v: ", p) + fmt.Sprintf(format, a...), Replay: p})
+				}
+				mk := func(name, sid, filter string) *Client {
+					c := w.NewClient(name, 1, AckNone)
+					if c.Connect(ConnectOpts{ClientID: name, KeepAlive: 600, User: "sid:" + sid}) != 0 {
+						rep.HarnessError("connect failed")
+						return nil
+					}
+					c.Subscribe(1, 1, filter)
+					return c
+				}
+				var a, b *Client
+				if p.BFirst {
+					b = mk("b", p.SessionB, "b/#")
+					a = mk("a", p.SessionA, "a/#")
+				} else {
+					a = mk("a", p.SessionA, "a/#")
+					b = mk("b", p.SessionB, "b/#")
+				}
+				if a == nil || b == nil {
+					return
+				}
+				if a.SessionID != p.SessionA || b.SessionID != p.SessionB {
+					rep.HarnessError("the authentication seam did not hand out the requested session identifiers (%q, %q)", a.SessionID, b.SessionID)
+					return
+				}
+				pub := w.NewClient("pub", 1, AckAll)
+				pub.Connect(ConnectOpts{ClientID: "pub", KeepAlive: 600})
+				w.Step()
+				// identifiers are handed out in order: a gets 1, b gets 2, a gets 3..12
+				pub.Publish("a/1", "m", 1, false, 1)
+				w.Idle(500 * time.Millisecond)
+				pub.Publish("b/1", "m", 1, false, 2)
+				w.Step()
+				for k := 2; k <= 11; k++ {
+					pub.Publish(fmt.Sprintf("a/%d", k), "m", 1, false, int32(10+k))
+					w.Step()
+				}
+				idOf := func(c *Client, topic string) (int32, int) {
+					id, n := int32(-1), 0
+					for _, pk := range c.Publishes() {
+						if string(pk.Topic) == topic {
+							id = pk.MessageId
+							n++
+						}
+					}
+					return id, n
+				}
+				idB, nB := idOf(b, "b/1")
+				idA, nA := idOf(a, "a/11")
+				if nB == 0 || nA == 0 {
+					viol("c03-initial-delivery-missing:digits", "a received a/11 %d time(s) and b received b/1 %d time(s) (identifiers %d and %d)", nA, nB, idA, idB)
+					return
+				}
+				rep.Extra["identifier_pairs"] = fmt.Sprintf("%s+%d / %s+%d", p.SessionA, idA, p.SessionB, idB)
+				if fmt.Sprintf("%s%d", p.SessionA, idA) != fmt.Sprintf("%s%d", p.SessionB, idB) {
+					rep.HarnessError("the identifiers in flight (%d for a, %d for b) do not run together with the session identifiers: the scenario is vacuous", idA, idB)
+					return
+				}
+				// b acknowledges its delivery; a stays silent
+				b.Send(&packet.PubAck{Header: &packet.Header{}, MessageId: idB})
+				w.Step()
+				_, before := idOf(a, "a/11")
+				w.Idle(6 * time.Second)
+				if _, after := idOf(a, "a/11"); after <= before {
+					viol("c03-not-retransmitted:digits", "after %s acknowledged its own identifier %d, the unacknowledged delivery a/11 (identifier %d) to %s was not sent again within 6 s", p.SessionB, idB, idA, p.SessionA)
+					return
+				}
+				if _, nb := idOf(b, "b/1"); nb != nB {
+					viol("c03-sent-after-completion:digits", "b's acknowledged delivery was sent %d more time(s)", nb-nB)
+					return
+				}
+				MarkNontrivial(fmt.Sprint(p))
+				rep.Nontrivial++
+				rep.Sample(p)
+			})
+		},
+		func(i int) any { return paths[i] },
+		func(rep *vk.Report) {
+			rep.Rule = "session identifiers A and A+\"1\" (handed out by the authentication seam) with deliveries under packet identifiers 12 and 2 in flight, so that session text followed by identifier digits coincide; both sessions get their messages, b's acknowledgement completes only b's delivery, a's is retransmitted"
+			rep.Floor("paths", 6, rep.Nontrivial)
 		})
 }
